@@ -352,6 +352,49 @@ def run_c10(tier, seed, pid="C10"):
             traces.append({"id": tid, "gen": g, "registered": [g], "tree": t, "fs0": fs_json(obs["fs0"]), "fs1": fs_json(obs["fs1"]),
                            "events": obs["events"], "ret": obs["ret"], "files": obs["files"]})
             meta[tid] = (g, t, "object-edited-in-place-after-a-successful-generate" if k else "unrelated", "api", obs)
+    # ANY registered check gates generation - also one a user of the API registers on the verifier, in any category and at any
+    # position among the checks of that category (after the general ones, before / after a passing one of its own)
+    from fcp.error import error as fcp_error
+    from fcp.result import Ok as ROk
+    probe_text = ('version: "3"\nenum Mode { Off = 0, On = 1, }\nstruct Tele { a @0: u8, m @1: Mode, }\n'
+                  'impl can for Tele { id: 100, device: "ecu", signal a { scale: 0.5, }, signal m { offset: 1, }, }\n'
+                  'struct Req { x @0: u8, }\nservice Svc @1 { method set(Req) @0 returns Req, }\ndevice ecu { services: [Svc], }\n')
+    cats = ["struct", "field", "enum", "impl", "signal_block", "type", "device", None]       # None: registered without a category
+    for cat in cats:
+        for g in GENS:
+            for pos in ("only", "after-a-passing-check", "before-a-passing-check"):
+                pfcp = pycodec.parse_text(probe_text) if hasattr(pycodec, "parse_text") else None
+                if pfcp is None:
+                    from fcp.parser import get_fcp_from_string
+                    from fcp.error import Logger
+                    pfcp = get_fcp_from_string(probe_text, Logger({})).unwrap()
+                ver = make_general_verifier()
+                calls = {"n": 0}
+
+                def passing(self, fcp, node):
+                    return ROk(())
+
+                def rejecting(self, fcp, node, calls=calls):
+                    calls["n"] += 1
+                    return fcp_error("rejected by the probe check")
+                if pos == "after-a-passing-check":
+                    ver.register(passing, cat)
+                ver.register(rejecting, cat)
+                if pos == "before-a-passing-check":
+                    ver.register(passing, cat)
+                prepare_dir(out, rng.choice(["unrelated", "clash", "absent"]), g)
+                obs = run_call(g, pfcp, out, "api", manager=GeneratorManager(ver))
+                chk.count(1, traces=1)
+                chk.distinct("user-check|%s|%s|%s" % (cat, g, pos))
+                if cat is None:
+                    # an uncategorized check is given no node; today generation is then refused for every schema - what matters
+                    # here is only that nothing is generated
+                    calls["n"] = -1
+                ran = any(e["op"] in ("generate", "write") for e in obs["events"])
+                if obs["ret"] == "Ok" or obs["fs0"] != {p: h.split("*")[0] for p, h in obs["fs1"].items()} or ran:
+                    chk.violation("generate[%s]:user-registered-check-did-not-gate:%s" % (g, cat or "uncategorized"),
+                                  {"generator": g, "category": cat, "position": pos, "times_the_check_ran": calls["n"], "returned": obs["ret"],
+                                   "message": obs["msg"], "events": obs["events"], "fs_before": obs["fs0"], "fs_after": obs["fs1"]})
     shutil.rmtree(out, ignore_errors=True)
     # canaries
     cans = []
